@@ -389,8 +389,53 @@ def variable_kern_section(ctx):
                 break
 
 
+def declared_script_section(ctx):
+    """a script that the feature file DECLARES (languagesystem) and whose glyphs carry mark anchors -- so the script has a record
+    in GPOS -- but that has no kerning of its own: kerning between script-neutral glyphs (punctuation, digits) applies in its
+    runs too, under that script's language system, with both writers"""
+    import ufo2ft
+    from fontTools.ttLib import TTFont
+    from ufo2ft.featureWriters.kernFeatureWriter import KernFeatureWriter
+    from ufo2ft.featureWriters.kernFeatureWriter2 import KernFeatureWriter as KernFeatureWriter2
+    from ufo2ft.featureWriters import MarkFeatureWriter, GdefFeatureWriter, CursFeatureWriter
+    tri = [[(Fr(0), Fr(0), "line"), (Fr(50), Fr(0), "line"), (Fr(50), Fr(50), "line")]]
+    EXTRA = [("grek", [("alpha", 0x3B1), ("beta", 0x3B2)]), ("cyrl", [("a-cy", 0x430), ("be-cy", 0x431)]), ("hebr", [("alef-hb", 0x5D0), ("bet-hb", 0x5D1)])]
+    for i in range(ctx.budget(6, 12)):
+        lib = ["ufoLib2", "defcon"][i % 2]
+        wname, wcls = [("kernFeatureWriter", KernFeatureWriter), ("kernFeatureWriter2", KernFeatureWriter2)][(i // 2) % 2]
+        tag, letters = EXTRA[(i // 4) % 3] if i >= 4 else EXTRA[i % 3]
+        glyphs = [{"name": n, "unicodes": [u], "width": 500, "contours": tri, "components": [], "anchors": [("top", Fr(250), Fr(600))] if a else []}
+                  for n, u, a in [("A", 0x41, True), ("V", 0x56, False), ("period", 0x2E, False), ("quotesingle", 0x27, False), ("one", 0x31, False)]
+                  + [(n, u, True) for n, u in letters]]
+        glyphs.append({"name": "acutecomb", "unicodes": [0x301], "width": 0, "contours": tri, "components": [], "anchors": [("_top", Fr(0), Fr(480))]})
+        names = [g["name"] for g in glyphs]
+        desc = {"glyphs": glyphs, "glyphOrder": names, "groups": {},
+                "kerning": {("A", "V"): Fr(-40), ("period", "quotesingle"): Fr(-55), ("one", "period"): Fr(12)},
+                "features": "languagesystem DFLT dflt;\nlanguagesystem latn dflt;\nlanguagesystem %s dflt;\n" % tag,
+                "lib": {"public.openTypeCategories": dict({n: "base" for n in names}, acutecomb="mark")}}
+        case = {"font": jsonable({k: (v if k != "kerning" else {"%s|%s" % kk: vv for kk, vv in v.items()}) for k, v in desc.items()}),
+                "lib": lib, "writer": wname, "declared_script_without_kerning": tag}
+        ctx.count(); ctx.klass("declared script without kerning of its own: %s/%s" % (tag, wname)); ctx.nontriv(("dsk", i, ctx.scale))
+        try:
+            tt = ufo2ft.compileTTF(build_font(desc, lib), useProductionNames=False,
+                                   featureWriters=[CursFeatureWriter, wcls, MarkFeatureWriter, GdefFeatureWriter])
+            b = io.BytesIO(); tt.save(b); lay = Layout(TTFont(io.BytesIO(b.getvalue())))
+        except Exception as e:
+            ctx.spec_failure(case, "compileTTF raised %s: %s\n%s" % (type(e).__name__, e, traceback.format_exc()[-1000:]))
+            continue
+        for t in ("DFLT", "latn", tag):
+            if t not in lay.scripts():
+                continue            # (no record of its own: the shaper takes DFLT's)
+            lk = lay.lookups_for(t, {"kern", "dist"})
+            for (a, c), v in (("period", "quotesingle"), -55), (("one", "period"), 12):
+                got = lay.pair_adjust(lk, a, c)[0]
+                if got != v:
+                    ctx.spec_failure(dict(case, script=t, pair=[a, c]), "under %s the pair (%s, %s) of script-neutral glyphs is adjusted by %r, the UFO says %r" % (t, a, c, got, v))
+
+
 def explore(ctx):
     merge_scripts_section(ctx)
+    declared_script_section(ctx)
     variable_kern_section(ctx)
     # the bidi classification of glyphs (cmap + GSUB closure with the neutral glyphs taken out + designspace-rule
     # substitutes) is util.classifyGlyphs with the writer's bidi type: the same Gallina model as C18's, other property
